@@ -191,10 +191,10 @@ class World:
         self.clock = seams.SimClock(1000.0)
         self.timer = seams.LogicalTimer()
         self.seams = seams.Seams()
-        self.seams.set(codegen, "time", self.clock)
+        import mako.cache, mako.runtime  # noqa: loaded before the clocks are taken over
+        seams.own_clocks(self.seams, self.clock, self.timer)
         mtemplate.compile = compile  # make the module global exist so that it can be rebound and restored
         _install_compile_memo(self.seams, self.clock)
-        self.seams.set(mutil, "timeit", self.timer)
         self.constructions = 0
         world = self
         RealTemplate = mtemplate.Template
